@@ -183,18 +183,14 @@ func sameVec[T num](got []T, want []int64, e int) (int, bool) {
 
 // env is what one call sees: operands already placed.
 type env[T num] struct {
-	c      *pcase
-	x, y   []T
-	dst    []T // destination of a ...To form (fresh, or aliasing x or y)
-	a      T
-	ai     int64
-	bl     gonum.Implementation
-	outv   []T     // vector result
-	outs   float64 // scalar result
-	outi   []int   // index result(s)
-	outb   bool
-	inds   []int
-	retLen int
+	c    *pcase
+	x, y []T
+	dst  []T // destination of a ...To form (fresh, or aliasing x or y)
+	a    T
+	ai   int64
+	bl   gonum.Implementation
+	outv []T     // vector result
+	outs float64 // scalar result
 }
 
 // vector-valued bindings. where: which operand receives the result
@@ -208,14 +204,14 @@ type vbind[T num] struct {
 }
 
 var vec64 = map[string][]vbind[float64]{
-	"Add":   {{"floats.Add", "x", nil, func(e *env[float64]) { floats.Add(e.x, e.y) }}},
-	"AddTo": {{"floats.AddTo", "dst", []string{"x", "y"}, func(e *env[float64]) { e.outv = floats.AddTo(e.dst, e.x, e.y) }}},
-	"Sub":   {{"floats.Sub", "x", nil, func(e *env[float64]) { floats.Sub(e.x, e.y) }}},
-	"SubTo": {{"floats.SubTo", "dst", []string{"x", "y"}, func(e *env[float64]) { e.outv = floats.SubTo(e.dst, e.x, e.y) }}},
-	"Mul":   {{"floats.Mul", "x", nil, func(e *env[float64]) { floats.Mul(e.x, e.y) }}},
-	"MulTo": {{"floats.MulTo", "dst", []string{"?x", "?y"}, func(e *env[float64]) { e.outv = floats.MulTo(e.dst, e.x, e.y) }}},
-	"Div":   {{"floats.Div", "x", nil, func(e *env[float64]) { floats.Div(e.x, e.y) }}},
-	"DivTo": {{"floats.DivTo", "dst", []string{"?x", "?y"}, func(e *env[float64]) { e.outv = floats.DivTo(e.dst, e.x, e.y) }}},
+	"Add":      {{"floats.Add", "x", nil, func(e *env[float64]) { floats.Add(e.x, e.y) }}},
+	"AddTo":    {{"floats.AddTo", "dst", []string{"x", "y"}, func(e *env[float64]) { e.outv = floats.AddTo(e.dst, e.x, e.y) }}},
+	"Sub":      {{"floats.Sub", "x", nil, func(e *env[float64]) { floats.Sub(e.x, e.y) }}},
+	"SubTo":    {{"floats.SubTo", "dst", []string{"x", "y"}, func(e *env[float64]) { e.outv = floats.SubTo(e.dst, e.x, e.y) }}},
+	"Mul":      {{"floats.Mul", "x", nil, func(e *env[float64]) { floats.Mul(e.x, e.y) }}},
+	"MulTo":    {{"floats.MulTo", "dst", []string{"?x", "?y"}, func(e *env[float64]) { e.outv = floats.MulTo(e.dst, e.x, e.y) }}},
+	"Div":      {{"floats.Div", "x", nil, func(e *env[float64]) { floats.Div(e.x, e.y) }}},
+	"DivTo":    {{"floats.DivTo", "dst", []string{"?x", "?y"}, func(e *env[float64]) { e.outv = floats.DivTo(e.dst, e.x, e.y) }}},
 	"AddConst": {{"floats.AddConst", "x", nil, func(e *env[float64]) { floats.AddConst(e.a, e.x) }}},
 	"Scale":    {{"floats.Scale", "x", nil, func(e *env[float64]) { floats.Scale(e.a, e.x) }}},
 	"ScaleTo":  {{"floats.ScaleTo", "dst", []string{"?x"}, func(e *env[float64]) { e.outv = floats.ScaleTo(e.dst, e.a, e.x) }}},
@@ -240,8 +236,6 @@ var sc64 = map[string][]sbind[float64]{
 	"Dist1":   {{"floats.Distance(1)", func(e *env[float64]) { e.outs = floats.Distance(e.x, e.y, 1) }}},
 	"NormInf": {{"floats.Norm(Inf)", func(e *env[float64]) { e.outs = floats.Norm(e.x, math.Inf(1)) }}},
 	"DistInf": {{"floats.Distance(Inf)", func(e *env[float64]) { e.outs = floats.Distance(e.x, e.y, math.Inf(1)) }}},
-	"Max":     {{"floats.Max", func(e *env[float64]) { e.outs = floats.Max(e.x) }}},
-	"Min":     {{"floats.Min", func(e *env[float64]) { e.outs = floats.Min(e.x) }}},
 }
 
 // Euclidean norms: compared with the exact value r*2^e to the spec's rounding bound
